@@ -200,6 +200,7 @@ type swObs struct {
 	StopAt    map[int]int
 	OnceAt    map[int][]int
 	Outages   [][2]int
+	NoAddr    [][2]int // minutes [from, to] in which the node had no self address (a subset of Outages as far as deadlines go)
 	Restarts  []int
 	SchedAt   map[int][]string // minute -> scheduled prefixes at the end of that minute (recorded when they change)
 	AddrAt    map[int]string
@@ -261,6 +262,7 @@ func runSweep(t *testing.T, sc *swSc) swObs {
 		obs.SwarmAt[0] = st.list()
 		obs.AddrAt[0] = st.addrs[0].String()
 		outageEnd := -1
+		noAddr := false // the current "outage" is a window in which the node has no address to advertise (it is online all the while)
 		lastSched := "-"
 		obs.SchedAt = map[int][]string{}
 		keysOf := func(e swEv) []mh.Multihash {
@@ -278,6 +280,12 @@ func runSweep(t *testing.T, sc *swSc) swObs {
 			if m == outageEnd {
 				st.mu.Lock()
 				st.outage = false
+				if noAddr {
+					// (a window without self addresses ends with a fresh address)
+					noAddr = false
+					st.addrs = []ma.Multiaddr{ma.StringCast(fmt.Sprintf("/ip4/8.1.2.%d/tcp/4001", 2+m%200))}
+					obs.AddrAt[m] = st.addrs[0].String()
+				}
 				st.mu.Unlock()
 				obs.Outages[len(obs.Outages)-1][1] = m
 			}
@@ -350,6 +358,19 @@ func runSweep(t *testing.T, sc *swSc) swObs {
 						st.mu.Unlock()
 						outageEnd = m + max(1, e.DurMin)
 						obs.Outages = append(obs.Outages, [2]int{m, sc.TotalMin + 1})
+					}
+				case "noaddr":
+					// the node stays online but has nothing to put into a provider record for a while (what a WAN DHT's address filter
+					// yields while the host has no public address): nothing can be advertised then, and everything that was due has
+					// to be made up for once there is an address again - accounted for like a router outage
+					if outageEnd < m {
+						st.mu.Lock()
+						st.addrs = nil
+						st.mu.Unlock()
+						noAddr = true
+						outageEnd = m + max(1, e.DurMin)
+						obs.Outages = append(obs.Outages, [2]int{m, sc.TotalMin + 1})
+						obs.NoAddr = append(obs.NoAddr, [2]int{m, outageEnd})
 					}
 				case "busy-restart":
 					// Close while the provides just asked for are still in flight (lookups and sends cost virtual time), then reopen
@@ -776,6 +797,13 @@ func judgeSweep(sc *swSc, obs *swObs, res *verifsim.Result) (cycles int) {
 					return true
 				}
 			}
+			for _, w := range obs.NoAddr {
+				if m >= w[0]-1 && m <= w[1]+1 {
+					// keys taken off the provide queue while the node has no self address are dropped (known finding)
+					res.Fail("advertised-promptly", "C17/sweep/no-self-address-window", "%s for key %d at minute %d: never advertised; the node had no self address from minute %d to minute %d", what, k, m, w[0], w[1])
+					return false
+				}
+			}
 			res.Fail("advertised-promptly", "C17/sweep/"+what+"/not-advertised", "%s for key %d at minute %d: no advertisement by the next quiescence", what, k, m)
 			return false
 		}
@@ -827,7 +855,14 @@ func judgeSweep(sc *swSc, obs *swObs, res *verifsim.Result) (cycles int) {
 						}
 					}
 					sig := "C17/sweep/reprovide-gap"
-					if why := skippedAtBootstrap(last, tm); why != "" {
+					for _, w := range obs.NoAddr {
+						if time.Duration(w[0])*time.Minute < tm && time.Duration(w[1]+1)*time.Minute > last {
+							// a slot that fell into a window without self addresses is dropped, not queued for catch-up (known finding)
+							sig = "C17/sweep/no-self-address-window"
+							what += fmt.Sprintf("; the node had no self address from minute %d to minute %d", w[0], w[1])
+						}
+					}
+					if why := skippedAtBootstrap(last, tm); why != "" && sig == "C17/sweep/reprovide-gap" {
 						sig = "C17/sweep/replan-after-restart"
 						what += "; " + why
 						if w2 := replanned(k, last, tm); w2 != "" {
@@ -1059,7 +1094,11 @@ func genSweep(t *rapid.T, regime string) swSc {
 		case 6:
 			sc.Events = append(sc.Events, swEv{AtMin: at, Ev: "restart"})
 		default:
-			sc.Events = append(sc.Events, swEv{AtMin: at, Ev: "addr"})
+			if rapid.Bool().Draw(t, "noAddr") {
+				sc.Events = append(sc.Events, swEv{AtMin: at, Ev: "noaddr", DurMin: rapid.SampledFrom([]int{2, 10}).Draw(t, "noAddrDur")})
+			} else {
+				sc.Events = append(sc.Events, swEv{AtMin: at, Ev: "addr"})
+			}
 		}
 	}
 	return sc
@@ -1069,7 +1108,7 @@ func sweepCheck(part, regime, regimeText string) verifsim.Check[swSc] {
 	return verifsim.Check[swSc]{
 		Property: "C17", Part: part,
 		Rule: "rapid, regime " + regimeText + ": swarms built by construction from the SHA-256 prefix-indexed peer pool (uniform + up to 3 clusters), 1-60 keys, r 1-8, reprovide interval 30/60 min and max delay 5/10 min, four worker configurations, closest-peers lookups costing 1-150 ms of virtual time (never 0), " +
-			"1.2-3.3 intervals of virtual time stepped minute by minute to quiescence, with events at minute boundaries: StopProviding, ProvideOnce, swarm growth/shrink, per-peer unreachability, router outages (2/10/45 min), Close+restart on the same datastore, self-address change; " +
+			"1.2-3.3 intervals of virtual time stepped minute by minute to quiescence, with events at minute boundaries: StopProviding, ProvideOnce, swarm growth/shrink, per-peer unreachability, router outages (2/10/45 min), Close+restart on the same datastore, self-address change, windows of 2/10 min without any self address; " +
 			"oracle over the ADD_PROVIDER log (key, recipient, virtual time, payload): recipients are swarm members, a start/provide-once is advertised by the next quiescence to every reachable member of the r nearest peers with the current address, kept keys are " +
 			"re-advertised completely at most interval+delay (+1 min, catch-up allowance after outages) apart, nothing after StopProviding; non-trivial = at least one complete re-advertisement cycle observed with churn, an outage, a restart or a stop",
 		Gen: func(t *rapid.T) swSc { return genSweep(t, regime) },
